@@ -168,6 +168,44 @@ func (g *vStoreWorld) step(a map[string]interface{}) (out map[string]interface{}
 				out["note"] = "name " + name + " not deleted"
 			}
 		}
+	case "save_parallel":
+		// several users' profiles saved at the same time (each request handler saves on its own goroutine): every one of
+		// them reads back what was saved for THAT user
+		g.ver[u]++
+		v := g.ver[u]
+		names := []string{u, "par-a", "par-b", "par-c", "par-d", "par-e", "par-f", "par-g"}
+		bad := make([]string, len(names))
+		var wg sync.WaitGroup
+		for k, name := range names {
+			wg.Add(1)
+			go func(k int, name string) {
+				defer wg.Done()
+				for round := 0; round < 6; round++ {
+					p := g.profile(u, v)
+					p.WebauthnID = uint64(1000*(k+1) + round)
+					if err := st.SaveUserProfile(name, p); err != nil {
+						bad[k] = "save: " + err.Error()
+						return
+					}
+					q, ok, fc, err := st.LoadUserProfile(name)
+					if err != nil || !ok || fc || q.WebauthnID != p.WebauthnID || vVersionOf(vGobOf(q)) != v {
+						bad[k] = fmt.Sprintf("%s round %d read back wrong (err=%v found=%v)", name, round, err, ok)
+						return
+					}
+				}
+			}(k, name)
+		}
+		wg.Wait()
+		out["wrote"], out["readback"] = v, v
+		for k, b := range bad {
+			if b != "" {
+				out["readback"], out["note"] = -5, b
+			}
+			if k > 0 {
+				st.DeleteUserProfile(names[k])
+			}
+		}
+		vMust(st.SaveUserProfile(u, g.profile(u, v)))
 	case "save_fault":
 		// the pk-th storage operation of this save fails (begin, prepare, the statement, commit): a save that says it
 		// worked has stored the profile
